@@ -14,11 +14,16 @@
   Any points of interest (`C16_stepFive_total_indep_partial`, Props/C16InsertTotal.lean: pairwise independent edges):
   * `Valued`, `pipelineReadyAll`              … every edge `Ready` with a coordinate at both end points, the edges pairwise `Indep`
   * `C16_pipeline_total_partial`, `C16_pipeline_total_on_grid_partial`
-  PARTIAL: success of steps 2–3, `Ready` / `Valued` / `Indep` of the edges are evaluated (part of the condition), not derived from the
-  geometry.
+  * `C16_steps23_total_on_grid`               steps 2–3 SUCCEED on the grid of the builder, for every geometry in general position inside
+                                              the grid and every `HashMap` order (`C16_steps23_total_partial`, Props/C16Steps23Total.lean,
+                                              + C12's builder theorems + `C16_crossings_sound`) — no evaluated condition
+  * `C17_capture_pipeline_total_on_grid_partial`   both, for capture (`ha = true`)
+  PARTIAL: `Ready` / `Valued` / `Indep` of the edges of step 4 are evaluated on the map after step 3 (part of the condition), not
+  derived from the geometry.
 -/
 import Honeycomb.Props.C16Step5Total
 import Honeycomb.Props.C16InsertTotal
+import Honeycomb.Props.C16Steps23Total
 import Honeycomb.Props.C16ChainGrid
 
 set_option linter.unusedSimpArgs false
@@ -250,5 +255,61 @@ theorem C16_pipeline_total_on_grid_partial {g : GGrid} {ny : Nat} {eps : Rat} {p
     pipeline succeeds -/
 example : ∃ m', pipelineMap (gridMap10 exG5 3) exG5 (1/8) [1] exVD exSD true [26, 30] [.intersec 0] = some m' :=
   C16_pipeline_total_on_grid_partial (by decide) (by decide) exD_gen exD_fit exD_keys (by decide +kernel)
+
+/-! ## steps 2 + 3 succeed on the grid of the builder -/
+
+/-- **C16 — steps 2 + 3 succeed on the grid of the model's builder**: every geometry whose segments are in eps-general
+    position and lie inside the grid with a margin of one cell, every iteration order of the `HashMap` of step 2: no call of
+    `insert_vertices_on_edge` is refused.  (`C16_steps23_total_partial` + C12's builder theorems: the crossed edges are
+    interior, 2-linked, embedded; `C16_crossings_sound`: the positions lie in `]0,1[`.) -/
+theorem C16_steps23_total_on_grid {g : GGrid} {ny : Nat} {eps : Rat} {verts : List Pt} {segs : List (Nat × Nat)}
+    {keys2 : List Nat} (hnx : 0 < g.nx) (hny : 0 < ny)
+    (hgen : ∀ seg, seg ∈ segs → GenPos g eps (verts.getD seg.1 (0, 0)) (verts.getD seg.2 (0, 0)))
+    (hfit : FitsAll g ny verts segs)
+    (hk2 : KeysAreHitEdges ((gridMap10 g ny).β 2) (slotsAll g eps verts segs) keys2) :
+    ∃ res m3, stepsTwoThree (gridMap10 g ny) (slotsAll g eps verts segs) keys2 = (res, .ok (), m3) := by
+  -- a written slot is a crossing of some segment
+  have slotc : ∀ (K d : Nat) (t : Rat), (slotsAll g eps verts segs)[K]? = some (some (d, t)) →
+      ∃ seg, seg ∈ segs ∧ ∃ c, c ∈ crossingsOf g eps (verts.getD seg.1 (0, 0)) (verts.getD seg.2 (0, 0)) ∧
+        c.dart = d ∧ c.t = t := by
+    intro K d t hK
+    have hmem := List.mem_of_getElem? hK
+    unfold slotsAll at hmem
+    obtain ⟨seg, hseg, hsl⟩ := List.mem_flatMap.1 hmem
+    rw [C16_slots_genpos (hgen seg hseg)] at hsl
+    obtain ⟨c, hcm, hce⟩ := List.mem_map.1 hsl
+    have hc := ((C16_metadata_same_intersections g eps _ _).1 c).1 hcm
+    injection hce with hce
+    injection hce with hd' ht'
+    exact ⟨seg, hseg, c, hc, hd', ht'⟩
+  refine C16_steps23_total_partial (gridMap10_wf g hnx hny)
+    (by unfold gridMap10; rw [withStorages_asize, buildGrid2_asize]; decide)
+    (C16_hitDartsOK_gridMap10 hgen hfit) hk2 ?_ ?_
+  · intro K d t hK
+    obtain ⟨seg, hseg, c, hc, _, rfl⟩ := slotc K d t hK
+    obtain ⟨_, _, _, _, _, _, _, _, _, _, t0, t1⟩ := crossing_cell (hgen seg hseg) (hfit seg hseg).1 (hfit seg hseg).2 hc
+    exact ⟨t0, t1⟩
+  · intro K d t hK
+    obtain ⟨seg, hseg, c, hc, rfl, _⟩ := slotc K d t hK
+    obtain ⟨_, _, v1, v2, c1, c2, _⟩ := C16_sideCoords_gridMap10 hgen hfit seg hseg c hc
+    exact ⟨⟨v1, c1⟩, ⟨v2, c2⟩⟩
+
+example : ∃ res m3, stepsTwoThree (gridMap10 exG5 3) (slotsAll exG5 (1/8) exVD exSD) [26, 30] = (res, .ok (), m3) :=
+  C16_steps23_total_on_grid (by decide) (by decide) exD_gen exD_fit exD_keys
+
+/-- **C17 — capture (`ha = true`: the anchor storages are written) on the grid of the builder**: steps 2–3 succeed, and
+    `pipelineReadyAll` — decidable, checked before step 5 — implies that the capture pipeline succeeds -/
+theorem C17_capture_pipeline_total_on_grid_partial {g : GGrid} {ny : Nat} {eps : Rat} {poi : List Nat} {verts : List Pt}
+    {segs : List (Nat × Nat)} {keys2 : List Nat} {keys4 : List GV} (hnx : 0 < g.nx) (hny : 0 < ny)
+    (hgen : ∀ seg, seg ∈ segs → GenPos g eps (verts.getD seg.1 (0, 0)) (verts.getD seg.2 (0, 0)))
+    (hfit : FitsAll g ny verts segs)
+    (hk2 : KeysAreHitEdges ((gridMap10 g ny).β 2) (slotsAll g eps verts segs) keys2)
+    (hready : pipelineReadyAll (gridMap10 g ny) g eps poi verts segs keys2 keys4 = true) :
+    (∃ res m3, stepsTwoThree (gridMap10 g ny) (slotsAll g eps verts segs) keys2 = (res, .ok (), m3)) ∧
+    ∃ m', pipelineMap (gridMap10 g ny) g eps poi verts segs true keys2 keys4 = some m' :=
+  ⟨C16_steps23_total_on_grid hnx hny hgen hfit hk2, C16_pipeline_total_on_grid_partial hnx hny hgen hfit hk2 hready⟩
+
+example := C17_capture_pipeline_total_on_grid_partial (poi := [1]) (keys4 := [.intersec 0]) (by decide) (by decide)
+  exD_gen exD_fit exD_keys (by decide +kernel)
 
 end HC.C16
